@@ -111,10 +111,18 @@ def transport_cases(ctx):
     for v in ["2024-11-05", "2025-03-26", "2025-06-18"]:
         for b in [["req", "note"], ["resp"], []]:
             yield {"handshake": v, "schedule": [["batch", b], ["single", "note"]]}
+    # ... also when the caller offers (and the server picks) a version the library itself does not list
+    for v in OFFERED_ONLY:
+        for b in [["req", "note"], ["resp"]]:
+            yield {"handshake": v, "offered": [v, "2025-06-18"], "schedule": [["batch", b], ["single", "note"]]}
     # two batches in one chunk / batch split across chunks
     for v in ["2025-03-26", "2025-06-18"]:
         yield {"schedule": [["version", v], ["batch2", ["req", "note"], ["resp", "err"]]]}
         yield {"schedule": [["version", v], ["batch_split", ["req", "note", "resp"]]]}
+
+
+# well-formed versions a caller may put in supported_versions although the library's own list lacks them
+OFFERED_ONLY = ["2025-06-17", "2025-06-19", "2025-11-25", "2024-01-01", "2099-12-31"]
 
 
 def exec_transport(ctx, case: Dict[str, Any]) -> None:
@@ -136,7 +144,7 @@ def exec_transport(ctx, case: Dict[str, Any]) -> None:
                     proc.feed((json.dumps({"jsonrpc": "2.0", "id": o["id"], "result": {
                         "protocolVersion": _hv, "capabilities": {}, "serverInfo": {"name": "s", "version": "1"}}})
                         + "\n").encode())
-        steps.append(("init", {"timeout": 5.0}))
+        steps.append(("init", dict({"timeout": 5.0}, **({"supported_versions": case["offered"]} if case.get("offered") else {}))))
         cur_v = hv
     for st in case["schedule"]:
         if st[0] == "version":
@@ -381,7 +389,7 @@ def run(ctx):
             break
         exec_transport(ctx, case)
     for variant in ("with_initialize", "connect_to_server", "stdio_transport_mcpclient"):
-        for hv in ("2024-11-05", "2025-03-26", "2025-06-18"):
+        for hv in ("2024-11-05", "2025-03-26", "2025-06-18") + (tuple(OFFERED_ONLY) if variant == "with_initialize" else ()):
             for b in (["req", "note"], ["resp", "bad_obj"], []):
                 case = {"handshake": hv, "variant": variant, "batch": b}
                 if ctx.mine():
